@@ -358,9 +358,14 @@ class Stack:
         if k == "t.cron":
             _, c, expected = op
             cid = self.cond(c).condition_id
-            exp = None if expected is None else (self.tr.get_last_cron_execution(cid) if expected == "cur" else self.now_dt(START_US - 1))
-            if expected == "cur" and exp is None:
+            exp = None if expected is None else (self.tr.get_last_cron_execution(cid) if expected in ("cur", "cur-tz") else self.now_dt(START_US - 1))
+            if expected in ("cur", "cur-tz") and exp is None:
                 exp = self.now_dt(START_US - 2)
+            if expected == "cur-tz" and exp is not None:
+                # the SAME instant written in another UTC offset (a caller in another time zone): still the current value
+                import datetime as _dt
+
+                exp = exp.astimezone(_dt.timezone(_dt.timedelta(hours=2)))
             return str(bool(self.tr.store_last_cron_execution(cid, self.now_dt(now), exp)))
         if k == "t.clean":
             self.tr.clean_task_trigger_definitions(self.tasks["tA"].task_id)
@@ -1295,7 +1300,7 @@ class Gen:
             c = r.choice(["c1", "c3"])
             if c not in self.cond and not self.wild:
                 return None
-            return ["t.cron", c, r.choice([None, "cur", "stale"])]
+            return ["t.cron", c, r.choice([None, "cur", "stale", "cur-tz"])]
         return ["t.clean"]
 
     def _wild_op(self, known: list[str]) -> list | None:
